@@ -220,6 +220,20 @@ func Check(id, tier string, seed int) int {
 		for a := range r.u.Assumptions() {
 			assume[a] = true
 		}
+		if r.plan.Opts.AssertsOnly {
+			// a unit that is run for its anchored assertions only must have some (a contract file that
+			// got lost or a renamed function would otherwise pass silently)
+			proofs := 0
+			for _, ob := range r.u.Obligations() {
+				if !ob.Cover {
+					proofs++
+				}
+			}
+			if proofs == 0 {
+				fmt.Printf("ENGINE-ERROR property=%s %s generated no obligation (no assert@ clause matched)\n", id, r.plan.Func)
+				engineErr = true
+			}
+		}
 		for _, ob := range r.u.Obligations() {
 			if ob.Cover {
 				nCover++
